@@ -146,4 +146,53 @@ theorem bProperty_map (c : Ctx) (np : List Str) (io : Bool) (number : Nat) (name
   simp only []
   split <;> rfl
 
+/-- float fields (rules are rejected — recorded finding — so the table is for the rule-free form) -/
+theorem scalar_type_float (ffmt : FloatFmt) (lr : Bool) :
+    ((scalarField (.float ffmt [] lr)).bind (·.res)).map (fun r => (r.type, r.typeName)) =
+      some (floatType ffmt, []) := by
+  simp [scalarField]
+
+/-- **an array property**: a repeated field with the ITEM's proto type and type name, ext `array` -/
+theorem bProperty_array (c : Ctx) (np : List Str) (io : Bool) (number : Nat) (name : Str) (req opt : Bool)
+    (items : Field) (arules : Rules) (r : FieldRes)
+    (hr : (bField c np (toCamel name) items).res = some r) (f : FieldSkel)
+    (h : (bProperty c np io number (.mk name req opt (.array items arules))).fld = some f) :
+    f.type = r.type ∧ f.typeName = r.typeName ∧ f.repeated = true ∧ f.ext = b!"array" := by
+  rw [bProperty] at h
+  simp only [hr] at h
+  have hf := finishProperty_fld _ _ _ _ _ _ _ _ _ _ h
+  exact ⟨hf.2.2.2.2.2.2.2.1, hf.2.2.2.2.2.2.2.2.1, hf.2.2.2.2.1, hf.2.2.2.2.2.2.2.2.2⟩
+
+/-- a oneof reference that resolves to a message: absolute type name of the declared type -/
+theorem bField_oneofRef_res (c : Ctx) (np : List Str) (d pkg schema : Str) (rules : Rules) (lr : Bool)
+    (t : TypeRef) (h : c.resolve pkg schema = some t) (hm : t.kind.isMessage = true) :
+    ∃ r, (bField c np d (.oneofRef pkg schema rules lr)).res = some r ∧
+      r.type = .message ∧ r.typeName = t.protoTypeName ∧ r.ext = b!"oneof" := by
+  rw [bField]
+  simp [msgRefField, refField, h, hm]
+
+/-- an enum reference that resolves to an enum whose rule values / default filters name options:
+enum-typed, absolute type name of the declared enum -/
+theorem bField_enumRef_res (c : Ctx) (np : List Str) (d pkg schema : Str) (rules : Rules)
+    (lr : Option (List Str)) (t : TypeRef) (pfx : Str) (names : List Str)
+    (h : c.resolve pkg schema = some t) (hk : t.kind = .enum pfx names)
+    (h1 : mapValuesOk pfx names (enumRuleVals rules) = true)
+    (h2 : mapValuesOk pfx names (lr.getD []) = true) :
+    ∃ r, (bField c np d (.enumRef pkg schema rules lr)).res = some r ∧
+      r.type = .enum ∧ r.typeName = t.protoTypeName ∧ r.ext = b!"enum" := by
+  rw [bField]
+  simp [refField, h, hk, TKind.isMessage, enumFieldWith, h1, h2]
+
+/-- an inline enum / oneof / object field refers to the nested type by its relative dotted name -/
+theorem bField_inline_typeName (c : Ctx) (np : List Str) (d : Str) :
+    (∀ name props fl rules, ((bField c np d (.objectInl name props fl rules)).res.map (fun r => (r.type, r.typeName))) =
+      some (.message, relName np (if name = [] then d else name))) ∧
+    (∀ name props rules lr, ((bField c np d (.oneofInl name props rules lr)).res.map (fun r => (r.type, r.typeName))) =
+      some (.message, relName np (if name = [] then d else name))) := by
+  constructor
+  · intro name props fl rules
+    rw [bField]; simp [msgInlField]
+  · intro name props rules lr
+    rw [bField]; simp [msgInlField]
+
 end J5V.Compile
